@@ -13,7 +13,18 @@ pub static mut NOW: Duration = Duration::ZERO;
 impl Instant {
     pub fn now() -> Instant { unsafe { Instant(NOW) } }
     pub fn saturating_duration_since(&self, earlier: Instant) -> Duration { self.0.saturating_sub(earlier.0) }
+    pub fn duration_since(&self, earlier: Instant) -> Duration { self.0.saturating_sub(earlier.0) }
+    pub fn checked_add(&self, d: Duration) -> Option<Instant> { self.0.checked_add(d).map(Instant) }
+    pub fn checked_sub(&self, d: Duration) -> Option<Instant> { self.0.checked_sub(d).map(Instant) }
+    pub fn elapsed(&self) -> Duration { Instant::now().0.saturating_sub(self.0) }
 }
+// tokio's Instant arithmetic (panics on overflow like std's)
+impl std::ops::Add<Duration> for Instant { type Output = Instant; fn add(self, d: Duration) -> Instant { Instant(self.0 + d) } }
+impl std::ops::Sub<Duration> for Instant { type Output = Instant; fn sub(self, d: Duration) -> Instant { Instant(self.0 - d) } }
+impl std::ops::Sub<Instant> for Instant { type Output = Duration; fn sub(self, o: Instant) -> Duration { self.0.saturating_sub(o.0) } }
+impl std::ops::AddAssign<Duration> for Instant { fn add_assign(&mut self, d: Duration) { self.0 = self.0 + d; } }
+impl std::ops::SubAssign<Duration> for Instant { fn sub_assign(&mut self, d: Duration) { self.0 = self.0 - d; } }
+
 
 pub const SLOTS: usize = 2;
 pub struct HashMap<K, V> { pub slots: [Option<(K, V)>; SLOTS] }
